@@ -633,6 +633,14 @@ func (c *Canonicalizer) renamerFunc() loop.Renamer {
 
 	var renamer loop.Renamer
 	renamer = func(v ssa.Value) string {
+		// A constant inside a recurrence (start, step, trip count): subject to the literal policy
+		// like every other integer literal.
+		if k, ok := v.(*loop.SCEVConstant); ok && c.virtualSubstitutions[v] == nil {
+			if c.Policy.IsSmallInt(constant.Make(k.Value)) {
+				return loop.ConstNamePrefix + k.Value.String()
+			}
+			return loop.ConstNamePrefix + "<int_literal>"
+		}
 		// A recurrence asks for the name of its loop: the canonical name of the header block.
 		if ref, ok := v.(*loop.LoopRef); ok {
 			if ref.Loop != nil {
